@@ -67,6 +67,7 @@ def restart_step(k1: int, k2: int, k3: int, u1: int, u2: int, u3: int, slack: in
     pre: 1 <= k1 <= 2 and 1 <= k2 <= 3 and 1 <= k3 <= 2 and 1 <= u1 <= 2 and 1 <= u2 <= 3 and 1 <= u3 <= 2 and 0 <= slack <= 2
     pre: core.PARAMS.get("kgaps") is None or [k1, k2, k3] == core.PARAMS["kgaps"]
     pre: core.PARAMS.get("ugaps") is None or [u1, u2, u3] == core.PARAMS["ugaps"]
+    pre: core.PARAMS.get("smn") is None or [sub, newer, marked] == [bool(core.PARAMS["smn"] & 1), bool(core.PARAMS["smn"] & 2), bool(core.PARAMS["smn"] & 4)]
     post: _
     """
     return held(_restart_step, locals())
@@ -432,18 +433,19 @@ def _uidvv_step(restart1, restart2, sub, kid):
 
 def jobs_restart(prop, tier):
     q = tier == "quick"
-    T = 300 if q else 1200
+    T = 600 if q else 1200
     js = []
     for n in ([0, 2] if q else [0, 1, 2, 3]):
-        shapes = [([1, 2, 1], [2, 1, 2])] if q else [([1, 2, 1], [2, 1, 2]), ([1, 1, 1], [1, 1, 1]), ([2, 3, 2], [1, 3, 1])]
+        shapes = [([1, 2, 1], [2, 1, 2]), ([2, 1, 1], [1, 1, 2])] if q else [([1, 2, 1], [2, 1, 2]), ([1, 1, 1], [1, 1, 1]), ([2, 3, 2], [1, 3, 1])]
         for kg, ug in shapes:
-            js.append({"name": f"restart_step[n={n},k={''.join(map(str, kg))}]", "module": "harness.persist", "fn": "restart_step", "params": {"n": n, "prop": prop, "kgaps": kg, "ugaps": ug}, "timeout": T, "per_path": 90, "unblock": UNBLOCK})
+            for smn in (range(8) if n else [None]):
+                js.append({"name": f"restart_step[n={n},k={''.join(map(str, kg))}" + (f",smn={smn}]" if smn is not None else "]"), "module": "harness.persist", "fn": "restart_step", "params": {"n": n, "prop": prop, "kgaps": kg, "ugaps": ug, "smn": smn}, "timeout": T, "per_path": 90, "unblock": UNBLOCK})
     return js
 
 
 def jobs_crash(tier):
     q = tier == "quick"
-    T = 300 if q else 1200
+    T = 600 if q else 1200
     js = []
     for op in OPS:
         variants = [(False, False), (True, False), (True, True)] if op in ("append", "expunge", "store", "copy", "pack", "deliver") else [(False, False)]
